@@ -219,6 +219,8 @@ fn write_maybe_rpx_dimension(
     let unit_str: &str = &unit;
     // (unit names are ASCII case-insensitive)
     if unit_str.eq_ignore_ascii_case("rpx") {
+        // (`0e999rpx`: the tokenizer multiplies zero by an infinite power of ten, which is not a number)
+        let value = if value.is_nan() { 0. } else { value };
         // (computed in double precision: `value * 100.` may exceed the single precision range)
         let new_value = (value as f64 * 100. / ss.options.rpx_ratio as f64) as f32;
         let new_int_value = if (new_value.round() - new_value).abs() <= f32::EPSILON {
